@@ -133,6 +133,13 @@ func init() {
 			[]Stmt{book, tbl("t", typed(it, "a", "b")...), tbl("fresh", typed(it, "f")...)}})
 	}
 	pairWitnesses = append(pairWitnesses,
+		// C03-l: the same unsigned integer column written with and without its display width
+		witness{"w-equal-schemas-unsigned-with-and-without-width", my,
+			[]Stmt{tbl("t", col("id", "int(11)"), col("c", "int(11) UNSIGNED"), col("d", "smallint(6) UNSIGNED"), col("e", "tinyint(4) UNSIGNED"),
+				col("f", "int(11) UNSIGNED"), col("g", "smallint(6) UNSIGNED"), col("h", "int(11) UNSIGNED"))},
+			[]Stmt{tbl("t", col("id", "int(11)"), col("c", "int(11) UNSIGNED"), col("d", "smallint(6) UNSIGNED"), col("e", "tinyint(4) UNSIGNED"),
+				col("f", "int(11) UNSIGNED"), col("g", "smallint(6) UNSIGNED"), col("h", "int(11) UNSIGNED"))}})
+	pairWitnesses = append(pairWitnesses,
 		// C03-k / C05-j: one side is a history that drops a column carried by two adjacent indexes (alone in the first): the
 		// same schema written directly diffs to nothing
 		witness{"w-equal-schemas-history-dropped-column-of-two-indexes", my,
@@ -235,6 +242,12 @@ type scriptWitness struct {
 }
 
 var scriptWitnesses = []scriptWitness{
+	// seeded change C05-l: a positional ADD COLUMN whose anchor has upper-case letters in its name
+	{"w-add-after-mixed-case-column", my, []Stmt{tbl("account", ints("id", "userName", "email")...),
+		{Kind: "addColumn", T: "account", Col: col("nickName", "varchar(64)"), Pos: "after", After: "userName"}}},
+	{"w-add-after-mixed-case-column-twice", my, []Stmt{tbl("Account", ints("ID", "UserName", "Email")...),
+		{Kind: "addColumn", T: "Account", Col: col("NickName", "varchar(64)"), Pos: "after", After: "ID"},
+		{Kind: "addColumn", T: "Account", Col: col("Age", "int(11)"), Pos: "after", After: "NickName"}}},
 	// F1/F25: a dropped column re-added with a position
 	{"w-F1-readd-after", my, []Stmt{tbl("t", ints("a", "b", "c")...), {Kind: "dropColumn", T: "t", A: "a"}, {Kind: "addColumn", T: "t", Col: col("a", "int(11)"), Pos: "after", After: "c"}}},
 	{"w-F25-readd-slot", my, []Stmt{tbl("t", ints("a", "b", "c")...), {Kind: "dropColumn", T: "t", A: "b"}, {Kind: "addColumn", T: "t", Col: col("b", "int(11)"), Pos: "none"}}},
